@@ -20,3 +20,5 @@ def run(prog, rep):
     _rk2.run_const_pure(prog, rep)
     from ..rules import r_ver as _rv9
     _rv9.run(prog, rep)
+    from ..rules import r_close as _rcr
+    _rcr.run_release(prog, rep)
